@@ -19,6 +19,14 @@
     closel <n> <errmask> <rounds> <seed>
                                  the same system; reports = failing closers whose report is complete (`reported`) at the
                                  moment main returns                                → calls=… done=… reports=<k>
+    closec <n> <errmask> <groups> <seed>
+                                 the same system with n + (members of the groups) closers: closers whose names differ only in
+                                 letter case are different registered closer components (names are compared exactly:
+                                 `Ioc.Conc.definedNames`), each of them closed like any other
+    closeb <n> <errmask> <rounds> <seed>
+                                 the same system; intact = failing closers whose report is complete (`reported`) at the
+                                 moment main returns — with the built-in logger each report is one atomic write of its
+                                 own line                                           → calls=… done=… intact=<k>
     gmor <g> <trials>            g callers LoadOrStoreFn(name, own definition) on an empty map, all past the Load before the
                                  first LoadOrStore (`gmorSched`)                   → defs=<n> listed=<n> kept=<0|1>
     gscan <n> <trials> <seed>    one scanning round over n+1 components, no scanner failing, and the n load-or-stores of the
@@ -105,6 +113,36 @@ def handleCloseL (n mask rounds seed : Nat) : String :=
   let s := runFan (closeShape Facts.closeSkel).cfg n mask seed
   let r := showClose n s
   if r == "stuck" then r else r ++ " reports=" ++ toString (reported n (bitMask mask) s)
+
+/-! sixth round: names that differ only in letter case; the closing phase under the built-in logger -/
+
+/-- a group token of `closec`: kind (n t m) + count (2..4) + order (a d) → number of closers of the group -/
+def caseCount (tok : String) : Option Nat :=
+  match tok.toList with
+  | [k, c, o] =>
+    if !("ntm".toList.contains k) || !("ad".toList.contains o) || c.toNat < 50 || c.toNat > 52 then none
+    else some (c.toNat - 48)
+  | _ => none
+
+/-- `closec`: the spellings of a group are different names (`caseNames`), so each member is a registered closer component
+    with a definition of its own (`definedNames` under the exact key keeps all of them) -/
+def handleCloseC (n mask : Nat) (groups : String) (seed : Nat) : String :=
+  let toks := if groups == "-" then [] else groups.splitOn "."
+  let cs := toks.map caseCount
+  let kinds := toks.map fun t => t.toList.head?
+  if n > 40 || cs.any Option.isNone || kinds.eraseDups.length != kinds.length then "bad-line" else
+  let names := caseNames n (cs.filterMap id)
+  let k := (definedNames (fun x => x) names).length
+  if !bitsBelow mask k then "bad-line" else
+  showClose k (runFan (closeShape Facts.closeSkel).cfg k mask seed)
+
+/-- `closeb`: when Close returns, the output of the built-in logger holds the report of every failing closer whose report is
+    complete, each as one line of its own -/
+def handleCloseB (n mask rounds seed : Nat) : String :=
+  if n > 62 || !bitsBelow mask n || rounds < 1 || rounds > 200 then "bad-line" else
+  let s := runFan (closeShape Facts.closeSkel).cfg n mask seed
+  let r := showClose n s
+  if r == "stuck" then r else r ++ " intact=" ++ toString (reported n (bitMask mask) s)
 
 def showGmor (g : Nat) : String :=
   let r := gmorObs g
@@ -278,6 +316,8 @@ def handle (line : String) : String :=
     handleCloseA (natOr n 99) (natOr mask 0) (natOr amask 0) (natOr bmask 0) (natOr tmask 99) (natOr seed 0)
   | ["closed", n, mask, pairs, seed] => handleCloseD (natOr n 99) (natOr mask 0) pairs (natOr seed 0)
   | ["closel", n, mask, rounds, seed] => handleCloseL (natOr n 99) (natOr mask 0) (natOr rounds 0) (natOr seed 0)
+  | ["closec", n, mask, groups, seed] => handleCloseC (natOr n 99) (natOr mask 0) groups (natOr seed 0)
+  | ["closeb", n, mask, rounds, seed] => handleCloseB (natOr n 99) (natOr mask 0) (natOr rounds 0) (natOr seed 0)
   | ["gmor", g, trials] => handleGmor (natOr g 0) (natOr trials 0)
   | ["gscan", n, trials, seed] => handleGscan (natOr n 0) (natOr trials 0) (natOr seed 0)
   | "cstart" :: hist :: nops :: sync :: trials :: apps => handleCstart hist nops sync trials apps
